@@ -257,6 +257,14 @@ def r7_ack_list_pool(ctx):
     C11.r6_ack_list_pool(ctx)
 
 
+def r8_ack_confirms_recorded_tick(ctx):
+    """An acknowledgement confirms the tick at which the acknowledged message was *sent* (the recorded tick), for the recorded
+    entities, forward only (same rule as C11.R2): confirming the tick at which the ack arrives would cover changes made in between."""
+    import rules.C11 as C11
+    C11._F[0] = ctx.F
+    C11.r2_ack(ctx)
+
+
 RULES = [
     ("C02.R1", "the confirmed tick moves only forward on the mutate path", r1_monotone, 6, ["default", "all-features", "client-only"]),
     ("C02.R2", "stale mutate data is never written over newer state", r2_no_stale_write, 7, ["default", "all-features", "client-only"]),
@@ -265,5 +273,6 @@ RULES = [
     ("C02.R5", "update-tick stamping and waiting (C04.R2 + C01.R5) and tick fields in wire order", r5_stamping_and_waiting, 12, ["default", "all-features"]),
     ("C02.R6", "mutate messages are acknowledged only when consumed, so skipped-as-outdated data was really superseded (same rule as C11.R4)", r6_ack_when_consumed, 8, ["default", "all-features", "client-only"]),
     ("C02.R7", "recycled acknowledgement entity lists are empty when reused (same rule as C11.R6)", r7_ack_list_pool, 1, ["default", "all-features", "server-only"]),
+    ("C02.R8", "an acknowledgement confirms the recorded (sent) tick of the recorded entities, forward only (same rule as C11.R2)", r8_ack_confirms_recorded_tick, 6, ["default", "all-features", "server-only"]),
 ]
 THOROUGH_CONFIGS = ["default", "all-features", "server-only", "client-only"]
